@@ -155,6 +155,26 @@ Section RngProofs.
     rewrite Z.sub_diag. cbn [Z.leb Z.compare]. rewrite app_nil_r. reflexivity.
   Qed.
 
+  (* io.ReadFull over the generator always fills the whole buffer: n bytes for every n >= 0
+     (fuel: one Read per byte is more than enough - each Read yields min(n, 16) > 0 bytes) *)
+  Lemma fill_rand_length fuel : forall n r,
+    (forall k s, length (E k s) = 16%nat) -> 0 <= n -> n <= Z.of_nat fuel ->
+    Z.of_nat (length (snd (fill_rand key E fresh fuel n r))) = n.
+  Proof.
+    induction fuel as [|f IH]; intros n r Hlen Hn Hf.
+    - cbn in *. lia.
+    - cbn [fill_rand]. destruct (Z.leb_spec n 0) as [H0|H0]; [cbn; lia|].
+      rewrite read_out by exact H0. cbv beta iota zeta.
+      set (r1 := update_seed key fresh r). set (s := E (r_key r1) (r_seed r1)).
+      assert (Hg : Z.of_nat (length (firstn (Z.to_nat n) s)) = Z.min n 16).
+      { rewrite firstn_length. unfold s. rewrite Hlen. lia. }
+      destruct (Z.leb_spec (Z.of_nat (length (firstn (Z.to_nat n) s))) 0) as [Hz|Hz]; [lia|].
+      specialize (IH (n - Z.of_nat (length (firstn (Z.to_nat n) s)))
+                     (mkRng (r_epoch r1) (r_key r1) s (r_count r1) (r_used r1 + 1)) Hlen).
+      destruct (fill_rand key E fresh f _ _) as [r2 rest]. cbn [snd] in *.
+      rewrite app_length, Nat2Z.inj_add, IH by lia. lia.
+  Qed.
+
 End RngProofs.
 
 (* ---- non-vacuity: the toy block function of the harness, a short run from a fresh generator *)
